@@ -284,9 +284,17 @@ def case_gen(draw, long_max):
                 'shape': draw(st.sampled_from(['uniform', 'two-point', 'sorted', 'constant', 'alternating'])), 'seed': draw(st.integers(0, 10 ** 6))}
     mode = draw(st.sampled_from(['plain', 'store', 'grouped', 'windows']))
     case = {'data': data, 'op': draw(st.sampled_from(OPS)), 'km': draw(st.booleans()), 'mode': mode}
-    if case['op'] in ('sum', 'mean', 'min', 'max') and kind == 'short' and draw(st.integers(0, 7)) == 0:
+    if case['op'] in ('sum', 'mean', 'min', 'max') and kind == 'short' and mode != 'grouped' and draw(st.integers(0, 7)) == 0:
+        # huge values of alternating sign: every partial sum of a run of CONSECUTIVE items is representable (not so for the
+        # every-other-item sequences of the grouped mode, where a sum legitimately overflows)
         h = draw(st.sampled_from([1e308, 1.7e308, 9e307]))
         data['xs'] = [h if j % 2 == 0 else -h for j in range(draw(st.integers(2, 7)))]
+        data['numpy'] = False
+    if case['op'] in ('min', 'max') and kind == 'short' and draw(st.integers(0, 3)) == 0:
+        # the running extreme is a zero (falsy) and is followed by items that do not beat it; 60-bit ints a double cannot hold
+        big = 2 ** 60
+        data['xs'] = draw(st.sampled_from([[-1.5, 0.0, -2.0, -0.5], [1.5, 0.0, 2.0, 0.5], [-1, 0, -2, -3], [2, 0, 3, 1], [0, -3, -5], [0, 3, 5],
+                                           [big + 1, big - 40, big - 7], [-big - 1, -big + 40, -big + 7], [big + 1, big + 3, big + 2]]))
         data['numpy'] = False
     if case['op'] in ('min', 'max') and kind == 'short' and draw(st.integers(0, 2)) == 0:
         data['npint'] = draw(st.sampled_from(['uint8', 'int8', 'uint16', 'int64']))
